@@ -606,7 +606,7 @@ func (ego *object) SetTF(tf string, value any) Object {
 	if hash > 0 && (dot < 0 || hash < dot) {
 		key := tf[:hash]
 		var list List
-		if ego.KeyExists(key) {
+		if ego.TypeOf(key) == TypeList {
 			list = ego.GetList(key)
 		} else {
 			list = NewList()
